@@ -330,8 +330,8 @@ The signature check proper (`generator.verify` of the sighash closure's digest; 
 parameter `chk`.  All the theorems below ask of it is `ChkWF chk`: an empty signature, a signature the lax DER parser
 rejects and a key whose length does not fit its first byte never verify (the early exits of Core's `CheckSig`,
 `C03M_chk_wf_core`).  Where the base signature version hashes a script code with the signatures removed, the agreement
-of pycoin's `_delete_signature` with Core's `FindAndDelete` is the hypothesis `DelAgrees` / `SigDelShared` (property
-C04, `C04_findAndDelete_eq_partial`); witness VMs delete nothing and need no such hypothesis. -/
+of pycoin's `_delete_signature` with Core's `FindAndDelete` is the hypothesis `DelAgrees` / `SigDelShared`, which
+`C03M_sigdel_eq` proves for every script code and signatures within 520 bytes; witness VMs delete nothing. -/
 
 /-- `der.sigdecode_der_lax` (index based port) = `ecdsa_signature_parse_der_lax` of the specification on **every** byte
 string: same failures, same `(r, s)` — up to libsecp256k1 overwriting an out-of-range signature with `(0, 0)` -/
@@ -437,20 +437,20 @@ theorem C03M_step_eq (st : Consensus.State) (pc : Nat) (hpc : pc < cfg.script.le
         Agree (pc + size) (evalInstruction (stdEnv chk) cfg (absS st pc)) (specStep chk cfg st op data (pc + size)) :=
   instr_eq_all chk cfg st pc hpc hw hwp hchk hdel
 
-/-- `C03M_step_eq` with the deletion hypothesis spelt out: the script code after the last code separator decodes and the
-stack items are within 520 bytes -/
-theorem C03M_step_eq_walkable (st : Consensus.State) (pc : Nat) (hpc : pc < cfg.script.length)
+/-- `C03M_step_eq` with the deletion hypothesis discharged: all it takes is that the stack items are within 520 bytes
+(any script code: `C03M_sigdel_eq`) -/
+theorem C03M_step_eq_items (st : Consensus.State) (pc : Nat) (hpc : pc < cfg.script.length)
     (hw : hasFlag cfg.flags Gen.VM.VERIFY_MINIMALIF = true → cfg.witness = true)
     (hwp : hasFlag cfg.flags Gen.VM.VERIFY_WITNESS_PUBKEYTYPE = true → cfg.witness = true) (hchk : ChkWF chk)
-    (hwk : Walkable (cfg.script.drop st.codeSep)) (hok : okL st.stack) :
+    (hok : okL st.stack) :
     match getScriptOp (cfg.script.drop pc) with
     | none => (evalInstruction (stdEnv chk) cfg (absS st pc)).toOption = none
     | some (op, data, _, size) =>
         Agree (pc + size) (evalInstruction (stdEnv chk) cfg (absS st pc)) (specStep chk cfg st op data (pc + size)) :=
-  instr_eq_all chk cfg st pc hpc hw hwp hchk (fun sigs hm => delAgrees_walkable cfg st sigs hwk (fun s hs => hok s (hm s hs)))
+  instr_eq_all chk cfg st pc hpc hw hwp hchk (fun sigs hm => delAgrees_all cfg st sigs (fun s hs => hok s (hm s hs)))
 
 /-- C03.eval_eq for arbitrary initial stacks, under the hypothesis that signature deletion is shared along the run
-(`SigDelShared`; see `C03M_sigdel_walkable` for when it holds): same verdict, and on success the same final stack -/
+(`SigDelShared`; by `C03M_sigdel_eq` it holds whenever the initial items are within 520 bytes, which is `C03M_eval_eq`): same verdict, and on success the same final stack -/
 theorem C03M_eval_eq_shared (hw : hasFlag cfg.flags Gen.VM.VERIFY_MINIMALIF = true → cfg.witness = true)
     (hwp : hasFlag cfg.flags Gen.VM.VERIFY_WITNESS_PUBKEYTYPE = true → cfg.witness = true) (hchk : ChkWF chk)
     (stack : List Bytes) (hdel : SigDelShared chk cfg stack) :
@@ -460,16 +460,14 @@ theorem C03M_eval_eq_shared (hw : hasFlag cfg.flags Gen.VM.VERIFY_MINIMALIF = tr
   evalScript_eq_all chk cfg hw hwp hchk stack hdel
 
 /-- **signature deletion agrees**: pycoin's `_delete_signature` (instruction walk dropping the instructions equal to the
-canonical push of the signature; signatures taken bottom-most first) and Core's `FindAndDelete(scriptCode, CScript() << sig)`
-(top-most first) give the same script code for every signature list, whenever the instructions of the script code all
-decode and the signatures are at most 520 bytes long; and along Core's run of such a script on items within 520 bytes
-this is always so (items never exceed 520 bytes: `specStep_items`; the last code separator is an instruction boundary) -/
-theorem C03M_sigdel_walkable :
-    (∀ (st : Consensus.State) (sigs : List Bytes), Walkable (cfg.script.drop st.codeSep) → (∀ s ∈ sigs, s.length ≤ 520) →
-      DelAgrees cfg st sigs) ∧
-    (∀ stack0, okL stack0 → Walkable cfg.script → SigDelShared chk cfg stack0) :=
-  ⟨fun st sigs hw hl => delAgrees_walkable cfg st sigs hw hl,
-   fun stack0 hok hw => sigDelShared_walkable chk cfg stack0 hok hw⟩
+canonical push of the signature and keeping an undecodable tail verbatim — since the repair a9b3b8d; signatures taken
+bottom-most first) and Core's `FindAndDelete(scriptCode, CScript() << sig)` (top-most first) give the same script code for
+**every** script code and every list of signatures of at most 520 bytes; and along Core's run of any script on items
+within 520 bytes this is always so (items never exceed 520 bytes: `specStep_items`) -/
+theorem C03M_sigdel_eq :
+    (∀ (st : Consensus.State) (sigs : List Bytes), (∀ s ∈ sigs, s.length ≤ 520) → DelAgrees cfg st sigs) ∧
+    (∀ stack0, okL stack0 → SigDelShared chk cfg stack0) :=
+  ⟨fun st sigs hl => delAgrees_all cfg st sigs hl, fun stack0 hok => sigDelShared_items chk cfg stack0 hok⟩
 
 /-- a script with an undecodable instruction fails its evaluation on both sides (BAD_OPCODE at the latest when the loop
 gets there, even in a dead branch), whatever happened before — no assumption on signature deletion -/
